@@ -58,9 +58,9 @@ const batchRule = "rapid: 1-3 files x 0-10 query-response series (0-8 rows, 1-4 
 	"non-trivial = the recording holds a string field with a metacharacter, an integer-valued number or an integer of magnitude > 2^53; distinct by case hash"
 
 const (
-	exEmptyBatch = "empty-batch (known: replay/batch/empty-batch-dropped)"
-	exTmax       = "shifted-replay-of-batch-whose-tmax-is-not-its-last-point-time (known: replay/batch/tmax-not-shifted)"
-	exZeroBefore = "shifted-replay-with-clock-zero-before-first-point (known: replay/batch/tmax-not-shifted)"
+	exEmptyBatch = "empty-batch (repaired: replay/batch/empty-batch-dropped; excluded only with VERIF_C18_EXCLUDE)"
+	exTmax       = "shifted-replay-of-batch-whose-tmax-is-not-its-last-point-time (repaired: replay/batch/tmax-not-shifted; excluded only with VERIF_C18_EXCLUDE)"
+	exZeroBefore = "shifted-replay-with-clock-zero-before-first-point (repaired: replay/batch/tmax-not-shifted; excluded only with VERIF_C18_EXCLUDE)"
 	exPerFile    = "shifted-replay-of-files-starting-at-different-times (known: replay/batch/per-file-shift)"
 )
 
@@ -191,8 +191,8 @@ func genBatch(r *kit.Rec) func(t *rapid.T) BatchCase {
 			}
 			desc := gf.Desc
 			if constrainTmax {
-				// known defect: in a shifted replay tmax is not shifted with the points. Only batches whose
-				// tmax is the time of their last point are generated for recTime=false, counted.
+				// repaired defect (VERIF_C18_EXCLUDE=tmax only): in a shifted replay tmax was not shifted with the points.
+				// Then only batches whose tmax is the time of their last point are generated for recTime=false, counted.
 				if f.Task && !f.GroupedByTime {
 					excl(exTmax)
 					f.GroupedByTime = true
@@ -256,7 +256,7 @@ func genBatch(r *kit.Rec) func(t *rapid.T) BatchCase {
 					}
 					return rw
 				}
-				if constrainFile && si == 0 {
+				if constrainFile && len(gfiles) > 1 && si == 0 {
 					// every file must start at the common start (see exPerFile): the first row of the first series holds a value
 					if len(s.Rows) == 0 {
 						s.Rows = append(s.Rows, nullRow())
@@ -273,7 +273,7 @@ func genBatch(r *kit.Rec) func(t *rapid.T) BatchCase {
 					anyValue = true
 				}
 				if !anyValue && !keep("empty") {
-					// known defect: empty batches are not replayed. Give the series one value, counted.
+					// repaired defect (VERIF_C18_EXCLUDE=empty only): empty batches were not replayed. Give the series one value, counted.
 					excl(exEmptyBatch)
 					if len(s.Rows) == 0 {
 						s.Rows = append(s.Rows, nullRow())
@@ -295,7 +295,7 @@ func genBatch(r *kit.Rec) func(t *rapid.T) BatchCase {
 		if constrainTmax {
 			first, ok := c.latestFileStart()
 			if ok && c.Zero < first {
-				// known defect (same as exTmax): with the clock zero before the data the points move back and tmax stays
+				// repaired defect (same as exTmax): with the clock zero before the data the points moved back and tmax stayed
 				excl(exZeroBefore)
 				c.Zero = first + zeroOff
 			}
@@ -620,6 +620,12 @@ func batchCore(c BatchCase, cc *kit.Case) (string, string) {
 			return fail("replay/batch/time-shift", "replay relative to the clock (zero %d): the first point of file %d was shifted by %d ns, batch %d point %d by %d ns\nrecorded %s\ndelivered %s", c.Zero, d.file, fs, d.batch, d.point, d.d, fmtBt(ref[d.file][d.batch]), fmtBt(got[d.file][d.batch]))
 		}
 	}
+	for _, d := range deltas {
+		// a file without any point: its batches' tmax must still move together
+		if _, ok := fileShift[d.file]; !ok {
+			fileShift[d.file] = d.d
+		}
+	}
 	var files []int
 	for f := range fileShift {
 		files = append(files, f)
@@ -635,10 +641,7 @@ func batchCore(c BatchCase, cc *kit.Case) (string, string) {
 		if d.point >= 0 {
 			continue
 		}
-		fs, ok := fileShift[d.file]
-		if !ok {
-			continue // a file with empty batches only: nothing to relate tmax to
-		}
+		fs := fileShift[d.file]
 		if d.d != fs {
 			return fail("replay/batch/tmax-not-shifted", "replay relative to the clock (zero %d): the points of file %d were shifted by %d ns but tmax of batch %d by %d ns\nrecorded %s\ndelivered %s", c.Zero, d.file, fs, d.batch, d.d, fmtBt(ref[d.file][d.batch]), fmtBt(got[d.file][d.batch]))
 		}
@@ -663,7 +666,8 @@ var batchAssumptions = []string{
 	"timestamps lie in [-2e18, 3e18] ns and the clock zero in [0, 2e18]",
 	"the replay clock is a kapacitor/clock settable clock set to year 9999 before the replay starts; a 30 s bound is hang detection only (signature replay/hang)",
 	"the files are handed to ReplayBatchFromIO directly (the zip layer of the file data source is transparent and left out)",
-	"excluded by construction (known defects, witnesses under replays/C18): empty batches; for recTime=false batches whose tmax differs from their last point time, a clock zero before the first point, and files that start at different times",
+	"a batch whose recorded tmax is unset (zero time: an empty series of 'record query') may be delivered with any tmax (the replay gives it the tmax of the batch before it)",
+	"excluded by construction (known finding replay/batch/per-file-shift, witness under replays/C18): for recTime=false, files of one archive whose first timestamps differ. Empty batches, batches whose tmax differs from their last point time and a clock zero before the data (defects repaired by fix: commits) are generated; VERIF_C18_EXCLUDE=empty,tmax excludes them again",
 }
 
 func TestBatch(t *testing.T) {
